@@ -244,7 +244,8 @@ func fdsInto(dir string) []string {
 	var out []string
 	for _, e := range ents {
 		t, err := os.Readlink(filepath.Join("/proc/self/fd", e.Name()))
-		if err == nil && strings.HasPrefix(t, dir) {
+		// only files inside dir: the directory itself may be open for a moment (retention scan listing it)
+		if err == nil && strings.HasPrefix(t, strings.TrimSuffix(dir, "/")+"/") {
 			out = append(out, t)
 		}
 	}
